@@ -74,11 +74,13 @@ SrcShapes ==
                                <<2, 2, 3>>, <<2, 3, 4>>}
     [] SrcPreset = "small" -> {<<4>>, <<6>>, <<2, 3>>, <<3, 4>>, <<2, 2, 3>>}
     [] SrcPreset = "win"   -> {<<n>> : n \in 1..8} \cup {<<3, 5>>, <<4, 3>>}
+    [] SrcPreset = "rnd"   -> {<<6>>, <<3, 4>>}
     [] SrcPreset = "lean1" -> {<<5>>}
     [] SrcPreset = "lean2" -> {<<3, 4>>}
     [] SrcPreset = "lean3" -> {<<2, 3, 2>>}
     [] SrcPreset = "lean"  -> {<<5>>, <<3, 4>>, <<2, 3, 2>>}
-SrcKinds == CASE SrcPreset \in {"1d", "1d7", "lean", "lean1", "lean2", "lean3"} -> {"i"} [] OTHER -> {"i", "f", "b"}
+SrcKinds == CASE SrcPreset \in {"1d", "1d7", "lean", "lean1", "lean2", "lean3"} -> {"i"} [] SrcPreset = "rnd" -> {"i", "f"}
+              [] OTHER -> {"i", "f", "b"}
 
 \* source data: distinct small integers (index-mapping errors change values);
 \* "f": halves (exact in binary floating point); "b": a fixed irregular pattern
@@ -498,6 +500,20 @@ ComputeChunkSizesAct ==
        InPlace([a |-> "ComputeChunkSizes", x |-> x], x, env[x])
 
 (***************************************************************************)
+(* Random arrays (C06, C07, C23): the values are a REALIZATION the          *)
+(* specification cannot predict; the handle's denotation is a placeholder  *)
+(* (the replayer substitutes the first computed value of the base and      *)
+(* judges every later collection against NumPy applied to it).             *)
+(***************************************************************************)
+RandomAct ==
+  /\ Allowed("Random") /\ CanStep
+  /\ \E gen \in Pick({"RandomState", "Generator"}) : \E seed \in Pick(L({7, 8}, {7})) :
+       \E dist \in Pick(L({"randint", "poisson", "normal", "uniform", "random"}, {"randint", "normal"})) :
+         \E sh \in Pick({<<6>>, <<3, 4>>}) : \E g \in Pick(LeanGrids(sh)) :
+           Push([a |-> "Random", gen |-> gen, seed |-> seed, dist |-> dist, shape |-> sh, chunks |-> g, x |-> 0],
+                Iota(sh, IF dist \in {"randint", "poisson"} THEN "i" ELSE "f"))
+
+(***************************************************************************)
 (* Entry points that return a collection (C05): the denotation is kept.    *)
 (***************************************************************************)
 PersistAct ==
@@ -507,7 +523,7 @@ PersistAct ==
 
 Next ==
   \/ Start
-  \/ RechunkSpecAct \/ MapBlocksAct \/ SetItemAct \/ MaskSetAct \/ OutUfuncAct \/ MaskSelectAct \/ UnknownAct \/ ComputeChunkSizesAct \/ PersistAct
+  \/ RechunkSpecAct \/ MapBlocksAct \/ SetItemAct \/ MaskSetAct \/ OutUfuncAct \/ MaskSelectAct \/ UnknownAct \/ ComputeChunkSizesAct \/ RandomAct \/ PersistAct
   \/ Index \/ Elemwise \/ UnaryAct \/ AsTypeAct \/ TransposeAct \/ ReshapeAct \/ ExpandSqueeze \/ FlipRoll
   \/ ConcatStack \/ RechunkAct \/ ReduceAct \/ ArgReduce \/ CumulativeAct \/ DiffAct \/ WhereAct \/ TakeAct
   \/ BroadcastAct \/ WindowAct \/ WindowReduce \/ DotAct \/ PadRepeat \/ TopKAct
